@@ -48,6 +48,7 @@ NONTRIVIAL_RULE = "restored an interpreter from a snapshot and compared it (and 
 BOUNDS = {
     "resume_step": "feature machine FM; every non-final legal configuration x history of B in {absent,b1,b2} x n in {0,1}; 1-2 save/restore cycles; continuation event and engine fixed per item (all 13 events x sync, 6 x async in quick); guard outcomes symbolic",
     "resume_run": "feature machine FM; public run of N events (first fixed per item), cut after each",
+    "context_exact": "context machine CX (actions that delete a declared key, add keys, store None / falsy values, mutate nested data, clear the context); sequences of 3 events over 7; one snapshot/restore cut at a symbolic position; both engines: restored context equals the uninterrupted run's context exactly (no key of the initial context comes back), re-snapshot reproduces the snapshot, later behaviour equal",
     "actors_resume": "parent/child machine; child spawned (blocking in the sync engine) under id and systemId; cut before / after the child moved / after the parent completed; both engines",
     "snapshot_skeleton": "history skeletons CUR4/5/9/12/13/14: every legal configuration x publicly reachable history; both engines",
     "corrupt": "snapshot of a machine with history and an actor; corruption = (key index, replacement kind, string choice) symbolic over 9 keys x 13 replacements x 4 strings (empty, unknown id, two valid ids)",
@@ -546,8 +547,125 @@ def snapshot_skeleton(eng: int, c0: int, c1: int, c2: int, c3: int, c4: int, c5:
     return ok
 
 
+CX_EVENTS = ["DEL", "ADD", "NONE", "NEST", "CLR", "SWAP", "GO"]
+
+
+def _cx_machine() -> Any:
+    m = fm._M.get("CX") if hasattr(fm, "_M") else None
+    if m is None:
+        from xstate_statemachine import create_machine
+        from vf import env as _env
+        from vf.logic import make_logic
+
+        def a_del(i: Any, c: Any, e: Any, a: Any) -> None:
+            c.pop("draft", None)
+
+        def a_add(i: Any, c: Any, e: Any, a: Any) -> None:
+            c["extra"] = {"k": [len(c)]}
+
+        def a_none(i: Any, c: Any, e: Any, a: Any) -> None:
+            c["a"] = None
+
+        def a_nest(i: Any, c: Any, e: Any, a: Any) -> None:
+            c.setdefault("deep", {"l": []})["l"].append(len(c))
+
+        def a_clr(i: Any, c: Any, e: Any, a: Any) -> None:
+            c.clear()
+
+        def a_swap(i: Any, c: Any, e: Any, a: Any) -> None:
+            c["n"] = False if c.get("n") == 0 else 0
+
+        cfg = {"id": "cx", "initial": "s", "context": {"a": 1, "draft": [1, 2], "n": 0, "z": ""},
+               "states": {"s": {"on": {"DEL": {"actions": ["del"]}, "ADD": {"actions": ["add"]}, "NONE": {"actions": ["none"]},
+                                       "NEST": {"actions": ["nest"]}, "CLR": {"actions": ["clr"]}, "SWAP": {"actions": ["swap"]},
+                                       "GO": [{"target": "t", "guard": "hasDraft"}, {"target": "u"}]}},
+                          "t": {"on": {"GO": "s"}}, "u": {"on": {"GO": "s"}}}}
+        _env.install()
+        m = create_machine(cfg, logic=make_logic(actions={"del": a_del, "add": a_add, "none": a_none, "nest": a_nest, "clr": a_clr, "swap": a_swap},
+                                                 guards={"hasDraft": lambda c, e: "draft" in c}))
+        _env.pin_hashes(m)
+        if hasattr(fm, "_M"):
+            fm._M["CX"] = m
+    return m
+
+
+def context_exact(eng: int, e0: int, e1: int, e2: int, cut: int) -> bool:
+    """
+    pre: 0 <= eng <= 1
+    pre: gate('context_exact', eng=eng, e0=e0, e1=e1, e2=e2, cut=cut)
+    post: _
+    """
+    from xstate_statemachine import Interpreter, SyncInterpreter
+
+    if "eng" in P and eng != P["eng"]:
+        return verdict(True, nontrivial=False)
+    m = _cx_machine()
+    evs = [CX_EVENTS[P["first"]] if "first" in P else CX_EVENTS[pick(e0, len(CX_EVENTS))]]
+    evs += [CX_EVENTS[pick(x, len(CX_EVENTS))] for x in (e1, e2)]
+    k = pick(cut, 4)          # snapshot + restore after k events, then continue with the rest
+    why: Optional[str] = None
+
+    def fp(it: Any) -> Any:
+        return (sorted(n.id for n in it._active_state_nodes), repr(sorted(it.context.items(), key=repr)), it.status)
+
+    if eng == 0:
+        ref = SyncInterpreter(m)
+        ref.start()
+        it = SyncInterpreter(m)
+        it.start()
+        for i, e in enumerate(evs):
+            if i == k:
+                snap = common.native(it.get_snapshot)
+                it = common.native(SyncInterpreter.from_snapshot, snap, m)
+                if fp(it) != fp(ref):
+                    why = f"restored after {evs[:i]}: {fp(it)} vs uninterrupted {fp(ref)}"
+                    break
+                if common.native(it.get_snapshot) != snap:
+                    why = f"re-snapshot after restore differs after {evs[:i]}"
+                    break
+            ref.send(e)
+            it.send(e)
+            if fp(it) != fp(ref):
+                why = f"after {evs[:i + 1]} (cut at {k}): {fp(it)} vs uninterrupted {fp(ref)}"
+                break
+        ref.stop()
+        it.stop()
+    else:
+        box: Dict[str, Any] = {}
+
+        async def go() -> None:
+            ref = Interpreter(m)
+            await ref.start()
+            it = Interpreter(m)
+            await it.start()
+            for i, e in enumerate(evs):
+                if i == k:
+                    snap = common.native(it.get_snapshot)
+                    await it.stop()
+                    it = common.native(Interpreter.from_snapshot, snap, m)
+                    await it.start()
+                    if fp(it) != fp(ref):
+                        box["why"] = f"restored after {evs[:i]}: {fp(it)} vs uninterrupted {fp(ref)}"
+                        break
+                await ref.send(e)
+                await ref._event_queue.join()
+                await it.send(e)
+                await it._event_queue.join()
+                if fp(it) != fp(ref):
+                    box["why"] = f"after {evs[:i + 1]} (cut at {k}): {fp(it)} vs uninterrupted {fp(ref)}"
+                    break
+            await ref.stop()
+            await it.stop()
+
+        common.drive(go())
+        why = box.get("why")
+    if why:
+        _note(f"{'sync' if eng == 0 else 'async'}: {why}")
+    return verdict(why is None, nontrivial=k < 3)
+
+
 OBLIGATIONS = {"snapshot_skeleton": snapshot_skeleton, "resume_step": resume_step, "resume_run": resume_run, "actors_resume": actors_resume,
-               "corrupt": corrupt, "corrupt_text": corrupt_text}
+               "corrupt": corrupt, "corrupt_text": corrupt_text, "context_exact": context_exact}
 PROBES = {"corrupt": [{"key": 0, "kind": 0}, {"key": 2, "kind": 3}, {"key": 6, "kind": 3}, {"key": 7, "kind": 6}, {"key": 3, "kind": 7, "ssel": 1}],
           "actors_resume": [{"eng": 1, "tells": 1, "end": True}, {"eng": 0, "tells": 1}]}
 
@@ -565,11 +683,15 @@ def items(tier: str, seed: int) -> List[Dict[str, Any]]:
         out.append({"ob": "resume_run", "params": {"first": first, "N": 2 if quick else 3}, "timeout": 280 if quick else 1500,
                     "label": f"resume_run[first={first}]"})
     out.append({"ob": "actors_resume", "params": {}, "timeout": 200, "label": "actors_resume"})
+    for eng in (0, 1):
+        for first in range(len(CX_EVENTS)):
+            out.append({"ob": "context_exact", "params": {"eng": eng, "first": first}, "timeout": 300,
+                        "label": f"context_exact[{'sync' if eng == 0 else 'async'},{CX_EVENTS[first]}+2]"})
     out.append({"ob": "corrupt", "params": {}, "timeout": 280 if quick else 900, "label": "corrupt"})
     out.append({"ob": "corrupt_text", "params": {}, "timeout": 60, "label": "corrupt_text"})
     from vf import skeletons
 
-    for sid in ["CUR4", "CUR5", "CUR9", "CUR12", "CUR13", "CUR14"]:
+    for sid in ["CUR4", "CUR5", "CUR9", "CUR12", "CUR13", "CUR14", "CUR16"]:
         out.append({"ob": "snapshot_skeleton", "params": {"sid": sid, "spec": skeletons.CURATED[sid]}, "timeout": 120,
                     "label": f"snapshot_skeleton[{sid}]"})
     return out
